@@ -92,6 +92,8 @@ where
     /// [Work::read_access]. If these are missing something is horribly
     /// wrong and we should kerplode.
     pub fn get(&self) -> Arc<T> {
+        #[cfg(fontc_verif)]
+        fontdrasil::verif::note("get", std::any::type_name::<T>(), &self.id);
         if let Some(in_memory) = self.try_get() {
             return in_memory;
         }
@@ -233,6 +235,8 @@ where
     /// [Work::read_access]. If these are missing something is horribly
     /// wrong and we should kerplode.
     pub fn get(&self, id: &I) -> Arc<T> {
+        #[cfg(fontc_verif)]
+        fontdrasil::verif::note("get", std::any::type_name::<T>(), id);
         if let Some(in_memory) = self.try_get(id) {
             return in_memory;
         }
